@@ -7,6 +7,7 @@ MODULES = {
     "C09": "harness.c09_replay",
     "C11": "harness.c11_per",
     "C18": "harness.c18_rainbow",
+    "C08": "harness.c08_bellman",
 }
 
 TECH = "symbolic execution of the real Python functions on z3-backed proxies (re-execution path exploration); each obligation decided per path by z3 as pc ∧ assumptions ∧ ¬obligation; sat models replayed on the real code"
@@ -33,6 +34,11 @@ CLAIMED = {
         "level_note": NOTE + "; support grids are chosen with exactly representable delta_z (float rounding of b=(Tz-v_min)/delta_z is outside the claim)",
         "technique": TECH,
     },
+    "C08": {
+        "level_text": "bounded symbolic verification of the real learn()/update()/_learn_individual() of DQN (plain, double), CQN, DDPG, TD3, MADDPG, MATD3 on real agents with stub networks (uninterpreted functions of their inputs): for all rewards, done flags, actions, network outputs, policy noise, gamma and learn counters at batch<=2(3), actions<=2(3), agents<=2(3): the pair handed to the criterion is (Q(s,a_taken), r+gamma(1-d)V') with V' = max / double-argmax / clipped-noisy-target-action / min of twin target critics / centralised critic over all agents with agent i's own reward and done; done transitions ignore the next observation; soft updates and actor steps happen exactly on policy-delay steps for every (net,target) pair; and the REAL soft_update of DQN, CQN, RainbowDQN, DDPG, TD3, MADDPG, MATD3 on the agents' real networks (fresh and cloned) with symbolic tau sets every tensor held by the target to tau*online+(1-tau)*previous (in-place writes into real tensors captured in a shadow store) and leaves the online network untouched",
+        "level_note": NOTE + "; Rainbow's loss algebra is C18; weights on real networks are concrete seeded values (symbolic weights only on stub networks); chaining of soft updates is by induction over the one-step identity",
+        "technique": TECH,
+    },
     "C17": {
         "level_text": "bounded symbolic verification of the real PPO.learn / IPPO.learn up to the minibatch loop: for all rewards, values, done flags, bootstrap values, log-probs, gamma, lambda at rollout shapes T<=3(5), envs<=2(3), agents<=2(3), the flattened rows handed to the minibatch loop carry, for every (agent, step, env), that triple's observation, action, old log-prob, old value and the GAE advantage/return defined by the statement's recursion (up to a permutation of rows)",
         "level_note": NOTE,
@@ -49,4 +55,4 @@ NOT_APPLICABLE = {
 
 # designed in DESIGN.md §5 but the check is not built/registered yet (moves to CLAIMED when it lands)
 PENDING = {pid: "solver-based check designed (DESIGN.md §5) but not yet built in this tree; not claimed until it is"
-           for pid in ["C03", "C04", "C05", "C06", "C08", "C12", "C13", "C14", "C15", "C16", "C19"]}
+           for pid in ["C03", "C04", "C05", "C06", "C12", "C13", "C14", "C15", "C16", "C19"]}
